@@ -61,9 +61,12 @@ func VerifEdit(file int, mode int) {
 	verifCover("terminated")
 }
 
-// VerifFileParses: the files above are well-formed for the grammar-file parser (a harness
-// whose files are all refused would only explore the diagnostics).
+// VerifFileParses: is file `file` of the list above read as well-formed by this tree?  Not a
+// property of C13: the driver leaves the edits of a refused file out (and says so), because
+// they would only explore the diagnostics.
 func VerifFileParses(file int) {
 	verifUnwind(4000)
-	verifAssert(verifParseOutcome(verifFiles[file]), "a file of the C13 edit harness is not read as well-formed")
+	if verifParseOutcome(verifFiles[file]) {
+		verifCover("file parses")
+	}
 }
